@@ -98,7 +98,7 @@ PROPS = {
         'needs_exp': True,
     },
     'C02': {
-        'rules': [rule('G0'), rule('G5'), rule('G6'), rule('G7', drop=LOOKAHEAD), rule('G8'), rule('G1'), rule('G3'), rule('T1'), rule('T2'), rule('G17', keep=['string-literal:']), rule('G18', keep=['escaped-identifier:']), rule('G12', keep=['lookahead-spans-tokens', 'trivia-inside-compound-token']), rule('G14', keep=['digit-run-continuation']), rule('S1', keep=['VERSION', 'DIRECTIVE'])],
+        'rules': [rule('G0'), rule('G5'), rule('G6'), rule('G7', drop=LOOKAHEAD), rule('G8'), rule('G1'), rule('G3'), rule('T1'), rule('T2'), rule('G17', keep=['string-literal:']), rule('G18', keep=['escaped-identifier:']), rule('G12', keep=['lookahead-spans-tokens', 'trivia-inside-compound-token']), rule('G14', keep=['digit-run-continuation']), rule('S1', keep=['VERSION', 'DIRECTIVE']), rule('S3')],
         'explanation': 'Necessary conditions for "accepted and classified under their production", anchored in the three stated '
                        'mechanisms. One parser per production, every production addressable: every parser is reachable from an '
                        'entry and every CST struct / enum variant (the repository\'s own copy of Annex A: 936 structs, 1048 '
@@ -185,7 +185,7 @@ PROPS = {
         'technique': 'named-parameter threading lint + must-adopt / control-dependence checks',
     },
     'C14': {
-        'rules': [rule('G10'), rule('W3'), rule('W1'), rule('G0'), rule('G14'), rule('G21'), rule('X20'), rule('G22'), rule('G17', keep=['string-literal:']), rule('W6'), rule('X1', keep=['unscanned-exit']), rule('K2')],
+        'rules': [rule('G10'), rule('W3'), rule('W1'), rule('G0'), rule('G14'), rule('G21'), rule('X20'), rule('G22'), rule('G17', keep=['string-literal:']), rule('W6'), rule('X1', keep=['unscanned-exit']), rule('K2'), rule('W2'), rule('X9', keep=['swapped'])],
         'explanation': 'Strict entries cannot succeed before end of input; bracket helpers demand both delimiters; no closing delimiter or '
                        'block-closing keyword is optional anywhere in the grammar (G10, G0); failures are mapped to Error::Parse '
                        'through the origin map of the parsed text and to Error::Preprocess with the path being read (W3), '
@@ -267,7 +267,7 @@ PROPS = {
         'needs_mir': True,
     },
     'C08': {
-        'rules': [rule('P1'), rule('P2'), rule('S6'), rule('G13'), rule('X8'), rule('G2'), rule('G9'), rule('G4', keep=['locate-field-assigned', 'locate-fields', 'concat-position'])],
+        'rules': [rule('P1'), rule('P2'), rule('S6'), rule('G13'), rule('X8'), rule('G2'), rule('G9'), rule('G4', keep=['locate-field-assigned', 'locate-fields', 'concat-position']), rule('T1')],
         'explanation': 'Every panic-capable site of the five runtime crates (found on MIR: unwrap/expect, core::panicking, indexing, '
                        'RefCell borrows, Assert terminators) is put in a class and each class is discharged by a structural rule: '
                        'lexeme joins by G2 (adjacent by construction, many1 non-empty); Locate::try_from(&node).unwrap() by "the node '
@@ -351,7 +351,7 @@ PROPS = {
         'needs_mir': True,
     },
     'C06': {
-        'rules': [rule('X4', drop=['strip-']), rule('X1'), rule('G10'), rule('G15'), rule('G17', keep=['string-literal:']), rule('G18'), rule('G22'), rule('W6'), rule('X2'), rule('X3', keep=[':none-origin', ':push', ':merge'])],
+        'rules': [rule('X4', drop=['strip-']), rule('X1'), rule('G10'), rule('G15'), rule('G17', keep=['string-literal:']), rule('G18'), rule('G22'), rule('W6'), rule('X2'), rule('X3', keep=[':none-origin', ':push', ':merge']), rule('X13', keep=['re-preprocess', 'expansion-text'])],
         'explanation': 'Restricted to the directive-free part of the pp type graph (SourceDescription::{Comment, StringLiteral, NotDirective, '
                        'EscapedIdentifier} and their trivia) every leaf is emitted exactly once: each variant has an emitting arm (X4b), an '
                        'arm that pushes its whole node either skips the node, or suppresses exactly the descendants that would emit '
